@@ -17,6 +17,7 @@ import (
 	"time"
 	"unsafe"
 
+	"github.com/google/uuid"
 	"github.com/nspcc-dev/locode-db/pkg/locodedb"
 	"github.com/nspcc-dev/neo-go/pkg/core/mempoolevent"
 	"github.com/nspcc-dev/neo-go/pkg/core/native/nativehashes"
@@ -77,6 +78,100 @@ type vf38Chain struct {
 
 	calls   []vf38Call
 	hookOps map[string]int
+
+	// what the chain (RPC node) answers to the auxiliary reads and to the newEpoch call
+	// during the current step; nil = the constant answers of the admission part
+	wx *vf38Weather
+}
+
+// vf38Weather is the behaviour of the RPC node during one step of an epoch history: every
+// auxiliary chain read made while a NewEpoch notification is handled (network configuration,
+// transaction height, network map listing incl. iterator traversal, container listing) and
+// the newEpoch call made on a tick can independently work or break in the ways a real
+// connection does.  None of it changes which epoch the chain is in.
+type vf38Weather struct {
+	cfg      string // "ok" | "rpc-error" | "missing" | "not-integer" | "two-items"
+	duration int64
+	height   string // "ok" | "rpc-error"
+	timerErr bool   // the local epoch timer refuses the reset
+	nmap     string // "inline" | "session" | "rpc-error" | "fault" | "no-iterator" | "bad-item" | "bad-state" | "traverse-error"
+	nodes    []stackitem.Item
+	pending  []stackitem.Item // rest of a session-based iterator
+	cnrs     string           // "rpc-error" | "empty" | "some"
+	cnrIDs   []stackitem.Item
+	newEpoch string // "ok" | "rpc-error"
+
+	served map[string]int
+}
+
+var errVf38RPC = errors.New("verif: RPC node temporarily unavailable")
+
+// answer serves the reads the weather covers; handled=false leaves the op to the defaults.
+func (w *vf38Weather) answer(c *vf38Chain, op string, args []any) (bool, []any) {
+	switch op {
+	case "TestInvoke":
+		if m, _ := args[1].(string); m != "config" {
+			return false, nil
+		}
+		w.served["config:"+w.cfg]++
+		switch w.cfg {
+		case "ok":
+			return true, []any{[]stackitem.Item{stackitem.Make(w.duration)}, nil}
+		case "missing":
+			return true, []any{[]stackitem.Item{stackitem.Null{}}, nil}
+		case "not-integer":
+			return true, []any{[]stackitem.Item{stackitem.NewArray(nil)}, nil}
+		case "two-items":
+			return true, []any{[]stackitem.Item{stackitem.Make(w.duration), stackitem.Make(1)}, nil}
+		}
+		return true, []any{nil, errVf38RPC}
+	case "TxHeight":
+		w.served["height:"+w.height]++
+		if w.height == "ok" {
+			return true, []any{c.height, nil}
+		}
+		return true, []any{uint32(0), errVf38RPC}
+	case "InvokeFunction":
+		if m, _ := args[1].(string); m != "listNodes" {
+			return false, nil
+		}
+		w.served["listNodes:"+w.nmap]++
+		switch w.nmap {
+		case "rpc-error":
+			return true, []any{nil, errVf38RPC}
+		case "fault":
+			return true, []any{&result.Invoke{State: "FAULT", FaultException: "verif: out of gas"}, nil}
+		case "no-iterator":
+			return true, []any{&result.Invoke{State: "HALT", Stack: []stackitem.Item{stackitem.Make(7)}}, nil}
+		case "session", "traverse-error":
+			sid, iid := uuid.UUID{0x38, 1}, uuid.UUID{0x38, 2}
+			k := len(w.nodes) / 2
+			w.pending = w.nodes[k:]
+			return true, []any{&result.Invoke{State: "HALT", Session: sid, Stack: []stackitem.Item{stackitem.NewInterop(result.Iterator{ID: &iid, Values: slices.Clone(w.nodes[:k])})}}, nil}
+		}
+		// "inline", "bad-item", "bad-state": session-less iterator holding everything
+		return true, []any{&result.Invoke{State: "HALT", Stack: []stackitem.Item{stackitem.NewInterop(result.Iterator{Values: slices.Clone(w.nodes)})}}, nil}
+	case "TraverseIterator":
+		w.served["traverse:"+w.nmap]++
+		if w.nmap == "traverse-error" {
+			return true, []any{nil, errVf38RPC}
+		}
+		n, _ := args[2].(int)
+		n = min(max(n, 0), len(w.pending))
+		batch := w.pending[:n]
+		w.pending = w.pending[n:]
+		return true, []any{slices.Clone(batch), nil}
+	case "TestInvokeIterator":
+		w.served["containers:"+w.cnrs]++
+		switch w.cnrs {
+		case "empty":
+			return true, []any{[]stackitem.Item{}, nil}
+		case "some":
+			return true, []any{slices.Clone(w.cnrIDs), nil}
+		}
+		return true, []any{nil, errVf38RPC}
+	}
+	return false, nil
 }
 
 type vf38Verdict struct {
@@ -112,10 +207,23 @@ func (c *vf38Chain) morph(cli any, op string, args []any) (bool, []any) {
 			call.Args = args
 		}
 		c.calls = append(c.calls, call)
-		if op == "NotaryInvoke" {
-			return true, []any{util.Uint256{}, nil}
+		var err error
+		if c.wx != nil && call.Method == "newEpoch" {
+			c.wx.served["newEpoch:"+c.wx.newEpoch]++
+			if c.wx.newEpoch != "ok" {
+				// the request was made (and is recorded); the RPC node did not take it
+				err = errVf38RPC
+			}
 		}
-		return true, []any{nil}
+		if op == "NotaryInvoke" {
+			return true, []any{util.Uint256{}, err}
+		}
+		return true, []any{err}
+	}
+	if c.wx != nil {
+		if ok, res := c.wx.answer(c, op, args); ok {
+			return true, res
+		}
 	}
 	switch op {
 	case "Committee":
@@ -228,9 +336,12 @@ func (e *vf38EpochState) EpochCounter() uint64 {
 func (e *vf38EpochState) SetEpochDuration(v uint64)    { e.mu.Lock(); e.dur = v; e.mu.Unlock() }
 func (e *vf38EpochState) EpochDuration() time.Duration { return time.Duration(e.dur) * time.Second }
 
-type vf38Timer struct{ resets int }
+type vf38Timer struct {
+	resets int
+	err    error // answer to the next resets (nil = timer re-armed)
+}
 
-func (t *vf38Timer) ResetEpochTimer(uint32) error { t.resets++; return nil }
+func (t *vf38Timer) ResetEpochTimer(uint32) error { t.resets++; return t.err }
 
 // ---------------------------------------------------------------------------------------
 // validators: real ones and scripted ones, all behind a recording wrapper
@@ -637,6 +748,7 @@ type vf38Fixture struct {
 	pool      *ants.Pool
 	alphabet  *vf38Alphabet
 	epoch     *vf38EpochState
+	timer     *vf38Timer
 	netmapSH  util.Uint160
 	proxy     util.Uint160
 	vSeen     []string
@@ -647,7 +759,7 @@ type vf38Fixture struct {
 }
 
 func vf38NewFixture(t testing.TB, rng *rand.Rand, validators []string) *vf38Fixture {
-	f := &vf38Fixture{alphabet: &vf38Alphabet{v: true}, epoch: &vf38EpochState{}, validator: validators}
+	f := &vf38Fixture{alphabet: &vf38Alphabet{v: true}, epoch: &vf38EpochState{}, timer: &vf38Timer{}, validator: validators}
 	f.netmapSH = util.Uint160{0x38, 1}
 	f.proxy = util.Uint160{0x38, 2}
 	cnrSH := util.Uint160{0x38, 3}
@@ -673,7 +785,7 @@ func vf38NewFixture(t testing.TB, rng *rand.Rand, validators []string) *vf38Fixt
 		Log:                  zap.NewNop(),
 		PoolSize:             1,
 		NetmapClient:         nmc,
-		EpochTimer:           &vf38Timer{},
+		EpochTimer:           f.timer,
 		EpochState:           f.epoch,
 		AlphabetState:        f.alphabet,
 		ContainerWrapper:     cc,
